@@ -308,7 +308,8 @@ class UnaryUfunc(Ufunc, ABC):
         """
         self.variables: Tuple["Tensor"] = (x1,)
         if where is not True:
-            self.where = where
+            # own copy: the caller may re-use its mask array before back-propagation
+            self.where = np.array(where, copy=True)
         return self.numpy_ufunc(x1.data, out=out, where=where, dtype=dtype)
 
 
@@ -376,7 +377,8 @@ class BinaryUfunc(Ufunc, ABC):
         """
         self.variables: Tuple["Tensor", "Tensor"] = (x1, x2)
         if where is not True and where is not _NoValue:
-            self.where = where
+            # own copy: the caller may re-use its mask array before back-propagation
+            self.where = np.array(where, copy=True)
             return self.numpy_ufunc(x1.data, x2.data, out=out, where=where, dtype=dtype)
         else:
             return self.numpy_ufunc(x1.data, x2.data, out=out, dtype=dtype)
@@ -423,7 +425,8 @@ class Sequential(Operation, ABC):
         self.variables: Tuple["Tensor"] = (a,)
 
         if where is not True and where is not _NoValue:
-            self.where = where
+            # own copy: the caller may re-use its mask array before back-propagation
+            self.where = np.array(where, copy=True)
 
         self.keepdims = keepdims
         self.initial = initial
